@@ -11,7 +11,7 @@ Open Scope N_scope.
 (* (owner, request number) of a fragment, unless it has been redirected *)
 Definition okey (st : pst) (f : fragref) : option (nat * nat) :=
   match f with
-  | FProbe => None
+  | FProbe _ => None
   | FReq mid slot =>
       match lookup mid (msgs st) with
       | Some m => if existsb (N.eqb slot) (pm_moved m) then None else Some (pm_client m, pm_seq m)
@@ -551,7 +551,7 @@ Proof.
   - rewrite E. reflexivity.
 Qed.
 
-Lemma on_moved_oinv st mid slot addr : WInv st -> OInv st -> OInv (on_moved st (FReq mid slot) mid addr).
+Lemma on_moved_oinv st mid slot ty addr : WInv st -> OInv st -> OInv (on_moved st (FReq mid slot) mid ty addr).
 Proof.
   intros HW H. unfold on_moved. cbn [frag_slot].
   assert (Hm : OInv (mark_moved st mid slot)) by (eapply OInv_rel; [exact HW | apply rel_mark_moved | exact H]).
@@ -560,7 +560,12 @@ Proof.
   destruct (find_pool stm addr) as [p|].
   - destruct (pool_get stm p) as [st1 [s|]] eqn:Eg; pose proof (pool_get_oinv _ _ _ _ Hm Eg) as H1;
       destruct (pool_get_winv _ _ _ _ Wm Eg) as (W1 & Em & _).
-    + apply enqueue_none; [|exact H1]. rewrite (okey_servers stm st1) by exact Em. apply okey_moved.
+    + set (st2 := if N.eqb ty RspAsk then enqueue_out st1 s (FProbe true) else st1).
+      assert (H2 : OInv st2 /\ msgs st2 = msgs st1).
+      { unfold st2. destruct (N.eqb ty RspAsk); [|split; [exact H1 | reflexivity]].
+        split; [apply enqueue_none; [reflexivity | exact H1] | apply (same_cm_enqueue_out st1 s (FProbe true))]. }
+      destruct H2 as [H2 M2].
+      apply enqueue_none; [|exact H2]. rewrite (okey_servers st1 st2) by exact M2. rewrite (okey_servers stm st1) by exact Em. apply okey_moved.
     + eapply OInv_rel; [exact W1 | apply rel_fail_and_flush | exact H1].
   - eapply OInv_rel; [exact Wm | apply rel_fail_and_flush | exact Hm].
 Qed.
